@@ -1,6 +1,7 @@
 //! Correspondence harness: runs the real yata code (linked from /repo's working tree) on
 //! generated or replayed operation sequences and writes a transcript that the Lean driver
 //! (/verif/lean/Driver.lean) replays through the formal model.
+mod action;
 mod flat;
 mod gen;
 mod methods;
@@ -57,6 +58,7 @@ fn main() {
 	} else {
 		match suite.as_str() {
 			"window" => window::suite(&mut out, seed, thorough),
+			"action" => action::suite(&mut out, seed, thorough),
 			"methods" => {
 				let filter: Vec<String> = arg(&args, "--methods")
 					.map(|s| s.split(',').map(|x| x.to_string()).collect())
@@ -76,6 +78,7 @@ fn dispatch_replay(out: &mut Out, _suite: &str, id: u64, comp: &str, lines: &[St
 	match comp {
 		"window" => window::run_program(out, id, &lines[1..].to_vec()),
 		"method" => methods::replay_case(out, id, lines),
+		"action" => action::replay_case(out, id, lines),
 		other => panic!("replay: unknown component {other}"),
 	}
 }
